@@ -24,7 +24,7 @@ func runC17(c *Ctx) {
 	c.res.Rule = "views: source kinds {rgb ints, image.Gray/RGBA/NRGBA/NRGBA64/Paletted/generic image (with alpha, non-zero bounds origin), planar YUV with/without reverseHorizontal and padding} " +
 		"x sizes (boundary list {1,2,3,7,8,9,39,40,41,47,48,49,200} squared, then random 1..200; thorough: every size 1..200 on one axis) " +
 		"x contents {random, coordinate-coded, stripes, bilevel, blocks, uniform, gradient, low-contrast} x sequences of 1..6 ops " +
-		"(crop: 55% inside the view, else negative origin / beyond the view / beyond the data / far outside / empty; invert; rotate CCW; rotate45) " +
+		"(crop: ~60% inside the view, else negative origin / beyond the view / beyond the data / far outside / empty / negative extent; invert; rotate CCW; rotate45) " +
 		"with a full comparison against the naive array and out-of-range GetRow probes after every op; non-trivial = distinct op line. " +
 		"binarisers: bilevel images (noise, stripes, checkerboards, frames, single pixels, symbols rendered by all writers at scales 1..4; sizes 1..64 and every size pair in 33..49) " +
 		"through both binarisers and BinaryBitmap (incl. Crop / RotateCounterClockwise), black rows vs. sharpened-threshold reference; grey images <= 64x64 vs. the Lean model " +
